@@ -167,6 +167,7 @@ func main() {
 	checksProto()
 	checksImageV1()
 	checksExtra()
+	checksR4()
 	checksWriter()
 	checksNetrc()
 	checksPure()
